@@ -516,22 +516,78 @@ class ReleaseSummaries:
 # stands for "an Exception of unknown class" (raised by an awaited library
 # call or a named raising primitive).  CancelledError is not tracked here.
 class EscapeAnalysis:
+    faults_only = False      # FaultEscape: count only exceptions raised while handling another one (conversion of an I/O failure)
+
     def __init__(self, eng: Engine):
         self.eng = eng
+        self._env: dict[str, object] = {}
+        self._handler_depth = 0
+        self._spec_cache: dict = {}
         self.esc: dict[FuncInfo, frozenset[str]] = {f: frozenset() for f in eng.repo.all_funcs()}
         changed = True
         rounds = 0
         while changed and rounds < 15:
             changed = False
             rounds += 1
+            self._spec_cache.clear()       # specialised summaries depend on the general ones of this round
             for f in eng.repo.all_funcs():
                 new = frozenset(self._block(f, f.node.body)) - {'<cancel>'}
                 if new != self.esc[f]:
                     self.esc[f] = new
                     changed = True
+        self._spec_cache.clear()
 
     def of(self, fn: FuncInfo) -> frozenset[str]:
         return self.esc.get(fn, frozenset())
+
+    def of_call(self, call: ast.Call, callee: FuncInfo) -> frozenset[str]:
+        """Escape set of `callee` for this call site: parameters that receive a literal (or keep a literal default) decide the
+        `if <param>:` / `if not <param>:` tests of the callee (one level; nested calls use the general summaries)."""
+        a = callee.node.args
+        params = [x.arg for x in a.posonlyargs + a.args]
+        if params and params[0] in ('self', 'cls') and callee.cls is not None:
+            params = params[1:]
+        env: dict[str, object] = {}
+        defaults = dict(zip([x.arg for x in (a.posonlyargs + a.args)][len(a.posonlyargs + a.args) - len(a.defaults):], a.defaults))
+        defaults.update({x.arg: d for x, d in zip(a.kwonlyargs, a.kw_defaults) if d is not None})
+        given: dict[str, ast.AST] = {}
+        for p_, v in zip(params, call.args):
+            given[p_] = v
+        for k in call.keywords:
+            if k.arg:
+                given[k.arg] = k.value
+        if any(isinstance(x, ast.Starred) for x in call.args) or any(k.arg is None for k in call.keywords):
+            return self.of(callee)
+        for p_ in params + [x.arg for x in a.kwonlyargs]:
+            v = given.get(p_, defaults.get(p_))
+            if isinstance(v, ast.Constant) and isinstance(v.value, (bool, type(None))):
+                env[p_] = v.value
+        if not env:
+            return self.of(callee)
+        stores = {n.id for n in ast.walk(callee.node) if isinstance(n, ast.Name) and isinstance(n.ctx, ast.Store)}
+        env = {k: v for k, v in env.items() if k not in stores}
+        key = (callee, tuple(sorted((k, repr(v)) for k, v in env.items())))
+        if key not in self._spec_cache:
+            saved = self._env
+            self._env = env
+            try:
+                self._spec_cache[key] = frozenset(self._block(callee, callee.node.body)) - {'<cancel>'}
+            finally:
+                self._env = saved
+        return self._spec_cache[key]
+
+    def _decide(self, test: ast.AST):
+        """True / False if the test is decided by the constant-argument environment, else None."""
+        if isinstance(test, ast.Name) and test.id in self._env:
+            return bool(self._env[test.id])
+        if isinstance(test, ast.UnaryOp) and isinstance(test.op, ast.Not):
+            d = self._decide(test.operand)
+            return None if d is None else not d
+        if isinstance(test, ast.Compare) and len(test.ops) == 1 and isinstance(test.left, ast.Name) and test.left.id in self._env and \
+                isinstance(test.comparators[0], ast.Constant) and isinstance(test.ops[0], (ast.Is, ast.IsNot, ast.Eq, ast.NotEq)):
+            same = self._env[test.left.id] is test.comparators[0].value or self._env[test.left.id] == test.comparators[0].value
+            return same if isinstance(test.ops[0], (ast.Is, ast.Eq)) else not same
+        return None
 
     # ---- expressions
     def expr(self, fn: FuncInfo, e: Optional[ast.AST]) -> set[str]:
@@ -565,7 +621,7 @@ class EscapeAnalysis:
                     for c in cs:
                         if c.is_async and not awaited:
                             continue
-                        out |= self.esc.get(c, frozenset())
+                        out |= self.of_call(x, c) if hasattr(self, 'esc') and c in self.esc else self.esc.get(c, frozenset())
                 elif nm in RAISING_PRIMITIVES:
                     out.add('*')
         return out
@@ -581,6 +637,8 @@ class EscapeAnalysis:
         if isinstance(st, FUNC_NODES) or isinstance(st, ast.ClassDef):
             return set()
         if isinstance(st, ast.Raise):
+            if self.faults_only and not self._handler_depth:
+                return self.expr(fn, st.exc)       # a raise outside any handler is a usage error / own decision, not an I/O fault
             if st.exc is None:
                 return set(caught) if caught else {'*'}
             e = st.exc.func if isinstance(st.exc, ast.Call) else st.exc
@@ -618,7 +676,11 @@ class EscapeAnalysis:
                         hc.add(t)
                 if not names or any(n in ('CancelledError', 'BaseException') for n in names):
                     hc.add('<cancel>')      # a bare `raise` here may just pass the cancellation on
-                handler_out |= self._block(fn, h.body, frozenset(hc))
+                self._handler_depth += 1
+                try:
+                    handler_out |= self._block(fn, h.body, frozenset(hc))
+                finally:
+                    self._handler_depth -= 1
             out = remaining | handler_out | self._block(fn, st.orelse, caught) | self._block(fn, st.finalbody, caught)
             return out
         if isinstance(st, (ast.With, ast.AsyncWith)):
@@ -632,6 +694,11 @@ class EscapeAnalysis:
                         out.add('*')
             return out | self._block(fn, st.body, caught)
         if isinstance(st, (ast.If, ast.While)):
+            d = self._decide(st.test) if isinstance(st, ast.If) and self._env else None
+            if d is True:
+                return self._block(fn, st.body, caught)
+            if d is False:
+                return self._block(fn, st.orelse, caught)
             return self.expr(fn, st.test) | self._block(fn, st.body, caught) | self._block(fn, st.orelse, caught)
         if isinstance(st, (ast.For, ast.AsyncFor)):
             return self.expr(fn, st.iter) | self._block(fn, st.body, caught) | self._block(fn, st.orelse, caught)
@@ -642,6 +709,14 @@ class EscapeAnalysis:
         if isinstance(st, ast.Assert):
             out.add('AssertionError')
         return out
+
+
+class FaultEscape(EscapeAnalysis):
+    """Typed exceptions that an I/O failure can make leave a function: only `raise` statements executed while another exception is
+    being handled count (the repo converts OSError / IncompleteReadError / timeouts into its NetworkError family inside handlers,
+    and re-raises there); a `raise` guarded by `if not self._reader:` is a usage error of the caller, not a fault.  '*' (unknown
+    library exceptions) is dropped by the users of this analysis."""
+    faults_only = True
 
 
 def const_true(e: ast.AST) -> bool:
@@ -657,6 +732,14 @@ def _feeds_gather(call: ast.Call) -> bool:
     return False
 
 
+def _faults(self) -> 'FaultEscape':
+    m = getattr(self, '_fault_obj', None)
+    if m is None:
+        m = FaultEscape(self)
+        self._fault_obj = m
+    return m
+
+
 def _escape(self) -> EscapeAnalysis:
     m = getattr(self, '_escape_obj', None)
     if m is None:
@@ -665,3 +748,4 @@ def _escape(self) -> EscapeAnalysis:
 
 
 Engine.escape = _escape  # type: ignore[attr-defined]
+Engine.faults = _faults  # type: ignore[attr-defined]
